@@ -136,6 +136,57 @@ def irrNearestArr (g vs : List F) : Option (List F) := optAll (vs.map (irrNeares
 
 end irr2
 
+/-! ### `IrregularParameterGrid` as an object: queries and changes interleaved -/
+
+section iobj
+variable {F : Type} [LE F] [DecidableLE F] [LT F] [DecidableLT F] [Add F] [Sub F] [Div F] [OfNat F 2]
+
+/-- the state of an `IrregularParameterGrid` object: the stored grid array (the code keeps nothing
+else — in particular no array derived from the grid survives a call) -/
+structure IGObj (F : Type) where
+  grid : List F
+
+/-- what can be done with the object -/
+inductive IGOp (F : Type) where
+  | extra                      -- `add_extra_lower_and_upper_bin()`
+  | setGrid (arr : List F)     -- `obj.grid = arr` (validated like the constructor argument)
+  | copy                       -- continue with `copy()` / `deepcopy` / an unpickled object
+  | nearest (v : F)            -- `round_to_nearest_grid_point(v)`
+  | lower (v : F)
+  | upper (v : F)
+
+/-- what an operation shows: the new grid, the answer of a query (`none` = IndexError), or that a
+changing operation raised (the object is unchanged) -/
+inductive IGOut (F : Type) where
+  | state (g : List F)
+  | answer (a : Option F)
+  | raised
+  deriving DecidableEq
+
+def IGObj.step (o : IGObj F) : IGOp F → IGObj F × IGOut F
+  | .extra => match irrAddExtra o.grid with
+    | some g' => (⟨g'⟩, .state g')
+    | none => (o, .raised)
+  | .setGrid arr => match mkIrr arr with
+    | some g' => (⟨g'⟩, .state g')
+    | none => (o, .raised)
+  | .copy => (o, .state o.grid)
+  | .nearest v => (o, .answer (irrNearest o.grid v))
+  | .lower v => (o, .answer (irrLowerC o.grid v))
+  | .upper v => (o, .answer (irrUpper o.grid v))
+
+/-- the object after a history -/
+def IGObj.after (o : IGObj F) : List (IGOp F) → IGObj F
+  | [] => o
+  | op :: rest => IGObj.after (o.step op).1 rest
+
+/-- what a history shows, operation by operation -/
+def IGObj.trace (o : IGObj F) : List (IGOp F) → List (IGOut F)
+  | [] => []
+  | op :: rest => (o.step op).2 :: IGObj.trace (o.step op).1 rest
+
+end iobj
+
 /-! ### `NullGridManifoldInterpolationMethod` for `D` parameter grids -/
 
 section null
